@@ -423,7 +423,7 @@ def rebuild_forwards_settings(ctx: Ctx, rule: str, cls_short: str, cls_name: str
 
 
 # --------------------------------------------------------------------------- lazyproperty caches under the wrapped function's name
-def lazyproperty_call_form(ctx: Ctx, rule: str = "descriptor.cache-key"):
+def lazyproperty_call_form(ctx: Ctx, rule: str = "descriptor.cache-key", shorts=None):
     """`lazyproperty` stores the value in the instance __dict__ under the NAME OF THE WRAPPED FUNCTION.  Used as a decorator
     that name is the attribute's name.  Called as a function (`x = lazyproperty(getter)`, a property factory) the key is
     the getter's name: two attributes produced from one getter share one cache slot - whichever is read first decides
@@ -435,6 +435,8 @@ def lazyproperty_call_form(ctx: Ctx, rule: str = "descriptor.cache-key"):
     hits, n = [], 0
     for mod in ctx.repo.modules.values():
         short = mod.path.split("cr/cube/")[-1]
+        if shorts is not None and short not in shorts:
+            continue
         deco = set()
         for node in _ast.walk(mod.tree):
             if isinstance(node, (_ast.FunctionDef, _ast.AsyncFunctionDef)):
@@ -445,9 +447,9 @@ def lazyproperty_call_form(ctx: Ctx, rule: str = "descriptor.cache-key"):
                 n += 1
                 hits.append(f"{short}: {_u(node)[:70]} (line {node.lineno})")
     if hits:
-        ctx.violated(rule, "package: lazyproperty(...) used as a function", hits, "@lazyproperty on the function that carries the attribute's name", "attributes built from one wrapped function share one cache slot")
+        ctx.violated(rule, ("package" if shorts is None else ", ".join(shorts)) + ": lazyproperty(...) used as a function", hits, "@lazyproperty on the function that carries the attribute's name", "attributes built from one wrapped function share one cache slot")
     else:
-        ctx.held(rule, "package: every use of lazyproperty", "decorator form only", "")
+        ctx.held(rule, ("package" if shorts is None else ", ".join(shorts)) + ": every use of lazyproperty", "decorator form only", "")
 
 
 # --------------------------------------------------------------------------- public values are assembled measure blocks
